@@ -29,8 +29,19 @@ RULE = ("(a) every key of the regenerated table, pattern keys of online_filter/f
         "with load_from_file/Configuration(files=) vs assignment of the text and vs the model. "
         "(c) store_metadata -> raw h5py attrs (vs model h5) and new_dataset (vs normalised), "
         "batches of keys; a sample carried through export.hdf5, compress, repack, condense, "
-        "join, split. distinct = distinct (section,key,tagged value) cases that reached a "
-        "converter or a rejection branch.")
+        "join, split. (d) HISTORIES: assignments interleaved with register/deregister of "
+        "temporary and plug-in features, every query repeated after each registry change and "
+        "compared with an oracle recomputed from the current dfn state, with earlier answers for "
+        "the same registry, and with the model (state = registry); several store_metadata calls "
+        "on one file (same writer / append / replace) with old/new values related by "
+        "broadcasting, reshaping, wrapping, type change over all shapes (size 0, size 1, nested "
+        "one-element, string lists): file must hold the normalised LAST value with the same "
+        "shape (raw h5py, new_dataset, export, compress; model attr map); strings over all "
+        "printable ASCII punctuation and non-ASCII through Configuration.save -> "
+        "Configuration(files=)/load_from_file: loaded == assignment of clean_text(rendering), "
+        "plain strings are fixed points, second save -> load stable. distinct = distinct "
+        "(section,key,tagged value) cases / histories that reached a converter or a rejection "
+        "branch.")
 TRUSTED_BASE = [
     "h5py/HDF5 attribute layer: its Python-type map is measured at start-up and compared with "
     "the model's `h5` (mismatch fails the correspondence); NumPy array construction/`float()` of "
@@ -40,7 +51,11 @@ TRUSTED_BASE = [
     "lower-casing (generator uses only caseless non-ASCII characters); -0.0, digit-group "
     "underscores and |int| >= 2**53 are not generated",
 ]
-ASSUMPTIONS = ["HDF5 attributes return numpy scalars/arrays of the stored kind (measured)",
+ASSUMPTIONS = ["the configuration-file loader strips exactly: everything from the first '#', "
+               "white space at both ends, then ' and blanks, then \" and blanks, then white space "
+               "(Meta.cleanText); values that are empty afterwards are skipped; newlines are "
+               "not generated",
+               "HDF5 attributes return numpy scalars/arrays of the stored kind (measured)",
                "text rendering precision of Configuration.tostring ({:.12f}) is outside the model; "
                "the configuration-file claim is about the text that is read"]
 NOT_PROVED = [
@@ -572,6 +587,18 @@ def oracle_assign(sec, key, v, attrs, dfn, cfgmod, quick_routes):
     return a, ws, w, fails, info
 
 
+def split_answer(s):
+    """('stored <tag>' | 'rejected' | 'err:..', warning set or None)"""
+    toks = s.strip().split(" ")
+    if toks[0] == "stored":
+        ws = toks[2] if len(toks) > 2 else "-"
+        return " ".join(toks[:2]), (set() if ws == "-" else set(ws.split(",")))
+    if toks[0] == "rejected":
+        ws = toks[1] if len(toks) > 1 else "-"
+        return "rejected", (set() if ws == "-" else set(ws.split(",")))
+    return toks[0], None
+
+
 def mem_case_line(sec, key, v):
     return f"case s:{enc_str(sec)} s:{enc_str(key)} {enc(v)}"
 
@@ -739,9 +766,8 @@ def good_value(rng, dfn, sec, key):
         return rng.choice(TEXTS + [b"bytes-text", "A", "tblr"])
     # identity (user section, online_filter min/max)
     if sec == "user":
-        return rng.choice([5, 2.5, True, "text", [1, 2, 3], (0.5, 1.5), [[1, 2], [3, 4]],
-                           np.array([1.5, 2.5]), np.int32(7), "µm", [True, False], 0,
-                           np.float64(0.125), [0, 1.5]])
+        from . import c11_hist
+        return c11_hist.container_values(rng)
     return rng.choice([2.5, 3, np.float64(0.5), 0])
 
 
@@ -859,6 +885,9 @@ def run_replay_case(ctx, rp, attrs=None, verbose=False):
         if kind == "carry":
             entries = [(s, k, dec(t)) for s, k, t in rp["entries"]]
             return carry_through(ctx, entries, 99)
+        if kind in ("reghist", "storehist", "text"):
+            from . import c11_hist
+            return c11_hist.replay_case(ctx, rp, verbose=verbose)
         if kind == "file":
             a1, a2 = file_load(ctx, rp["sec"], rp["key"], rp["text"], 0)
             t = clean_text(rp["text"])
@@ -962,7 +991,7 @@ def run(ctx):
                     rendered = True
                 except Exception:
                     pass
-            if "\n" in text or "#" in text or "=" in text:
+            if "\n" in text:
                 continue
             hdr = sec if rng.random() < 0.6 else random_case_key(rng, sec)
             kk = key if rng.random() < 0.6 else random_case_key(rng, key)
@@ -1008,7 +1037,7 @@ def run(ctx):
         if known_key and t != "":
             file_results.append(((hdr, kk, text), a2 if not a2.startswith("err") else a1,
                                  len(lines)))
-            lines.append(f"file s:{enc_str(sec)} s:{enc_str(kk)} s:{enc_str(t)}")
+            lines.append(f"file s:{enc_str(sec)} s:{enc_str(kk)} s:{enc_str(text)}")
 
     # ---- 4. storage ----------------------------------------------------------------------
     skeys = storable_keys(ctx, dfn)
@@ -1080,6 +1109,16 @@ def run(ctx):
 
     attrs.close()
 
+    # ---- 6. histories: feature registry, repeated store_metadata, text route ---------------
+    from . import c11_hist
+    checks = []
+    hist_lines = []
+    c11_hist.part_registry(ctx, hist_lines, checks, spec_fail)
+    c11_hist.part_store_hist(ctx, hist_lines, checks, spec_fail)
+    c11_hist.part_text(ctx, hist_lines, checks, spec_fail)
+    off = len(lines)
+    lines += hist_lines
+
     # ---- model -------------------------------------------------------------------------------
     if ctx.lean_ok:
         out = ctx.lean("C11", lines)
@@ -1103,6 +1142,26 @@ def run(ctx):
             if m_ans != a2:
                 mirror_bad.append(f"file route '[{hdr}] {kk} = {text}': impl '{a2}' model "
                                   f"'{m_ans}'")
+
+        for li, want, what, mode, deps in checks:
+            m = out[off + li]
+            if "unmodelled" in m:
+                continue
+            if mode == "attr":
+                if any(out[off + j] != "ok" for j in deps):
+                    ctx.stat("history_model_skipped")
+                    continue
+                same = m == want
+            else:
+                ma, mw = split_answer(m)
+                wa, ww = split_answer(want)
+                if mode == "nowarn" or mw is None or ww is None:
+                    same = ma == wa
+                else:
+                    same = ma == wa and (mw - {"wrongType"}) == (ww - {"wrongType"})
+            ctx.stat("history_model_checks")
+            if not same:
+                mirror_bad.append(f"{what}: impl '{want}' model '{m}'")
 
     # ---- verdicts ------------------------------------------------------------------------------
     seen = set()
